@@ -227,6 +227,9 @@ def immU64 (imm : Int) : Nat :=
   let u := immU32 imm
   if u < 2147483648 then u else u + (18446744073709551616 - 4294967296)
 
+/-- the immediate as the signed number the 64-bit ALU adds (32 bits, sign-extended) -/
+def simmZ (imm : Int) : Int := (imm32 imm).toInt
+
 def capW (w : Nat) (b : Option Nat) : Nat :=
   match b with
   | some v => min v (2 ^ w - 1)
@@ -300,7 +303,7 @@ def aluStep (i : Insn) (a : AbsState) : R AbsState :=
   else if c == 0 then                                       -- ADD
     if d.isPtr && s.isPtr then .error "ptr-alu:pointer += pointer prohibited"
     else if d.isPtr then do
-      let k ← if useReg i then ptrAddVar d (scalarBound s) else ptrAddImm d i.imm
+      let k ← if useReg i then ptrAddVar d (scalarBound s) else ptrAddImm d (simmZ i.imm)
       pure (a.set i.dst k)
     else do
       let k ← ptrAddVar s (scalarBound d)
@@ -308,7 +311,7 @@ def aluStep (i : Insn) (a : AbsState) : R AbsState :=
   else if c == 1 then                                       -- SUB
     if d.isPtr && s.isPtr then .ok (a.set i.dst (.scalar none))
     else if d.isPtr && !useReg i then do
-      let k ← ptrAddImm d (-i.imm)
+      let k ← ptrAddImm d (-(simmZ i.imm))
       pure (a.set i.dst k)
     else .error "ptr-var:pointer -= register (not modelled)"
   else .error "ptr-alu:pointer arithmetic with this operator prohibited"
@@ -531,6 +534,24 @@ def defsOk (i : Insn) (a a' : AbsState) : Bool :=
   a'.regs.length == 11 && (List.range 11).all fun r =>
     !(a'.reg r).isInit || (defs i).contains r || ((a.reg r).isInit && !(kills i).contains r)
 
+/-- rule 2 on one edge: a register is a frame pointer `fp o'` after `i` only if it was one and `i` left it alone (a helper call
+keeps r6-r10 only), or `i` copied one (`MOV64 dst, src`), or `i` added / subtracted a constant (`ADD64/SUB64 dst, imm`) -/
+def fpEdgeOk (i : Insn) (a a' : AbsState) : Bool :=
+  (List.range 11).all fun r =>
+    match a'.reg r with
+    | .fp o' =>
+      (!(defs i).contains r && !(kills i).contains r && (!isCall i || decide (6 ≤ r)) && a.reg r == .fp o') ||
+      (i.op == 0xbf && r == i.dst && a.reg i.src == .fp o') ||
+      (i.op == 0x07 && r == i.dst && (match a.reg r with | .fp o => o' == o + simmZ i.imm | _ => false)) ||
+      (i.op == 0x17 && r == i.dst && (match a.reg r with | .fp o => o' == o - simmZ i.imm | _ => false))
+    | _ => true
+
+/-- rule 2 at one instruction: a load or store through a frame pointer stays inside the 512-byte frame -/
+def stackAccessOk (i : Insn) (a : AbsState) : Bool :=
+  if isLdx i then (match a.reg i.src with | .fp o => inFrame (o + i.off) (Ebpf.sizeOf i.op) | _ => true)
+  else if isSt i || isStx i then (match a.reg i.dst with | .fp o => inFrame (o + i.off) (Ebpf.sizeOf i.op) | _ => true)
+  else true
+
 def readsOk (i : Insn) (a : AbsState) : Bool := (reads i).all fun r => decide (r < 11) && (a.reg r).isInit
 
 /-- the table is inductive at `pc`: reads initialised, the transfer succeeds, every concrete successor is covered by an
@@ -538,11 +559,11 @@ abstract successor, and every abstract successor is above the table entry of its
 def checkAt (cfg : Config) (geo : MapGeometry) (prog : List Insn) (t : Table) (pc : Nat) : Bool :=
   match prog[pc]?, t[pc]? with
   | some i, some (some a) =>
-    readsOk i a &&
+    readsOk i a && stackAccessOk i a &&
     match transfer cfg geo pc i prog[pc + 1]? a with
     | .ok outs =>
       (succPcs pc i).all (fun q => outs.any (·.1 == q)) &&
-      outs.all fun o => defsOk i a o.2 && (match t[o.1]? with | some (some b) => b.leq o.2 | _ => false)
+      outs.all fun o => defsOk i a o.2 && fpEdgeOk i a o.2 && (match t[o.1]? with | some (some b) => b.leq o.2 | _ => false)
     | .error _ => false
   | some _, some none => isSecond prog pc
   | _, _ => false
